@@ -221,10 +221,14 @@ func trimSpace(st *State, x *smt.Term) *smt.Term {
 		l := st.fresh("ts.l", smt.String)
 		t := st.fresh("ts.t", smt.String)
 		r := st.fresh("ts.r", smt.String)
-		st.assume(smt.Eq(x, smt.Concat(l, t, r)))
+		eq := smt.Eq(x, smt.Concat(l, t, r))
+		st.assume(eq)
 		st.assume(smt.InRe(l, reWSStar))
 		st.assume(smt.InRe(r, reWSStar))
 		st.assume(smt.InRe(t, reTrimmed))
+		registerDecomp(&Decomposition{Eq: eq, X: x, Parts: []*smt.Term{t}, Seps: []*smt.Term{l, r}, Base: []*smt.Term{reTrimmed},
+			Own:   map[*smt.Term]bool{smt.InRe(l, reWSStar): true, smt.InRe(r, reWSStar): true, smt.InRe(t, reTrimmed): true},
+			Build: func(pl []*smt.Term) *smt.Term { return smt.ReConcat(reWSStar, pl[0], reWSStar) }})
 		return t
 	}).(*smt.Term)
 }
@@ -300,6 +304,25 @@ func effRet(f func(st *State) Value) Alt {
 		}
 	}}
 }
+
+// bytesOf reads a []byte value (string view, or an empty concrete slice).
+func bytesOf(v Value) *smt.Term {
+	switch b := v.(type) {
+	case BytesV:
+		return b.S
+	case SliceV:
+		if b.Len == 0 {
+			return smt.StrC("")
+		}
+	}
+	panic(fmt.Sprintf("unsupported []byte value %T", v))
+}
+
+// NewSliceValue builds a concrete slice value on a state.
+func (in *Interp) NewSliceValue(st *State, elems []Value) Value { return newSlice(in, st, elems) }
+
+// SliceElems exposes the elements of a concrete slice value.
+func SliceElems(st *State, v Value) []Value { return sliceElems(st, v) }
 
 func regexOf(st *State, v Value) *RegexObj {
 	p := v.(Ptr)
@@ -571,8 +594,8 @@ func registerModels(in *Interp) {
 	}
 	M["(*regexp.Regexp).ReplaceAll"] = func(in *Interp, st *State, cc *ssa.CallCommon, args []Value) []Alt {
 		r := regexOf(st, args[0])
-		src := args[1].(BytesV).S
-		repl := args[2].(BytesV).S
+		src := bytesOf(args[1])
+		repl := bytesOf(args[2])
 		if r.Known == nil || r.Known.Re == nil || !repl.IsConst() {
 			panic("ReplaceAll on opaque regexp or with symbolic replacement")
 		}
@@ -761,11 +784,30 @@ func splitModel(in *Interp, st *State, x, sep *smt.Term) []Alt {
 				}
 				cat = append(cat, p)
 			}
-			st.assume(smt.Eq(x, smt.Concat(cat...)))
+			eq := smt.Eq(x, smt.Concat(cat...))
+			st.assume(eq)
 			if len(sep.S) == 1 {
+				nosep := smt.ReStar(complementChar(sep.S[0]))
+				d := &Decomposition{Eq: eq, X: x, Parts: parts, Own: map[*smt.Term]bool{}}
 				for _, p := range parts {
-					st.assume(smt.Not(smt.Contains(p, sep)))
+					c := smt.Not(smt.Contains(p, sep))
+					st.assume(c)
+					d.Own[c] = true
+					d.Base = append(d.Base, nosep)
 				}
+				np := len(parts)
+				sepS := sep.S
+				d.Build = func(pl []*smt.Term) *smt.Term {
+					var rp []*smt.Term
+					for i := 0; i < np; i++ {
+						if i > 0 {
+							rp = append(rp, smt.ReLit(sepS))
+						}
+						rp = append(rp, pl[i])
+					}
+					return smt.ReConcat(rp...)
+				}
+				registerDecomp(d)
 			} else {
 				// leftmost, non-overlapping: sep does not occur in p_i·sep except at the end
 				for i, p := range parts {
@@ -945,12 +987,29 @@ func fieldsModel(in *Interp, st *State, x *smt.Term) []Alt {
 			eq := smt.Eq(x, smt.Concat(cat...))
 			st.assume(eq)
 			if n > 0 {
-				d := &Decomposition{Eq: eq, X: x}
+				d := &Decomposition{Eq: eq, X: x, Own: map[*smt.Term]bool{}}
 				for _, e := range elems {
 					d.Parts = append(d.Parts, e.(*smt.Term))
+					d.Base = append(d.Base, reNonWSPlus)
+					d.Own[smt.InRe(e.(*smt.Term), reNonWSPlus)] = true
 				}
 				for i := 0; i < len(cat); i += 2 {
 					d.Seps = append(d.Seps, cat[i])
+					d.Own[smt.InRe(cat[i], reWSStar)] = true
+					d.Own[smt.InRe(cat[i], reWSPlus)] = true
+				}
+				np := len(d.Parts)
+				d.Build = func(pl []*smt.Term) *smt.Term {
+					rp := []*smt.Term{reWSStar}
+					for i := 0; i < np; i++ {
+						rp = append(rp, pl[i])
+						if i < np-1 {
+							rp = append(rp, reWSPlus)
+						} else {
+							rp = append(rp, reWSStar)
+						}
+					}
+					return smt.ReConcat(rp...)
 				}
 				registerDecomp(d)
 			}
